@@ -26,7 +26,9 @@ import (
 	"encoding/json"
 	"errors"
 	"fmt"
+	"math/rand"
 	"os"
+	"runtime"
 	"sort"
 	"time"
 
@@ -48,11 +50,14 @@ type kase struct {
 	TimeoutMs float64         `json:"timeout_ms"`
 	Vars      []varSpec       `json:"vars"`
 	Ops       [][]interface{} `json:"ops"`
+	Iters     int             `json:"iters"` // stress mode: committed sections per sharer
+	Seed      int64           `json:"seed"`
 }
 
 type opRes struct {
-	St string      `json:"st"`
-	V  interface{} `json:"v"`
+	St string        `json:"st"`
+	V  interface{}   `json:"v"`
+	Op []interface{} `json:"op,omitempty"` // set on wind-down steps the harness added after the script
 }
 
 type result struct {
@@ -60,6 +65,9 @@ type result struct {
 	Res   []opRes       `json:"res"`
 	Final []interface{} `json:"final"`
 	Err   string        `json:"err"`
+	// stress mode
+	Commits  []int `json:"commits,omitempty"`
+	Attempts []int `json:"attempts,omitempty"`
 }
 
 // ---- value conversion ----
@@ -132,12 +140,13 @@ type world struct {
 	obs     []resources.Persistable       // one extra handle per variable, for the final snapshot
 	db      *badger.DB
 	hangDur time.Duration
+	hung    bool
 }
 
 func newWorld(k kase) (*world, error) {
 	w := &world{k: k}
 	to := time.Duration(k.TimeoutMs * float64(time.Millisecond))
-	w.hangDur = 50*to + 2*time.Second
+	w.hangDur = 40*to + 5*time.Second
 	needDB := false
 	for _, vs := range k.Vars {
 		if vs.Persist {
@@ -368,6 +377,44 @@ func runAPI(w *world) (res []opRes) {
 			r = w.getState(w.raw[i][v])
 		}
 		res = append(res, r)
+		if r.St == "hang" {
+			w.hung = true
+			for len(res) < len(k.Ops) {
+				res = append(res, skip)
+			}
+			return
+		}
+	}
+	// wind down whatever the script left open (only happens when the implementation's outcomes differed from
+	// what the script's author expected, e.g. a timeout on a free lock under load): abort it, in handle order
+	for i, s := range shs {
+		if s.phase == "active" {
+			s.phase = "aborting"
+			res = append(res, opRes{St: "ok", Op: []interface{}{"astart", i}})
+		}
+		if s.phase == "committing" || s.phase == "aborting" {
+			name := map[string]string{"committing": "crel", "aborting": "arel"}[s.phase]
+			var vs []int
+			for v := range s.dirty {
+				vs = append(vs, v)
+			}
+			sort.Ints(vs)
+			for _, v := range vs {
+				var ch chan struct{}
+				if name == "crel" {
+					ch = w.res[i][v].Commit(s.iface)
+				} else {
+					ch = w.res[i][v].Abort(s.iface)
+				}
+				if ch != nil {
+					<-ch
+				}
+				delete(s.dirty, v)
+				res = append(res, opRes{St: "ok", Op: []interface{}{name, i, v}})
+			}
+			s.phase = "idle"
+			res = append(res, opRes{St: "ok", Op: []interface{}{"end", i}})
+		}
 	}
 	return
 }
@@ -558,6 +605,13 @@ func runCtx(w *world) (res []opRes, errs string) {
 			r = w.getState(w.raw[i][v])
 		}
 		res = append(res, r)
+		if r.St == "hang" {
+			w.hung = true
+			for len(res) < len(k.Ops) {
+				res = append(res, skip)
+			}
+			return res, "hang"
+		}
 	}
 	// wind down: abort sections still open, then ErrDone
 	for i, s := range shs {
@@ -565,6 +619,7 @@ func runCtx(w *world) (res []opRes, errs string) {
 			select {
 			case s.cmdCh <- cmd{kind: "abort"}:
 				park(s)
+				res = append(res, opRes{St: "ok", Op: []interface{}{"abort", i}})
 			case <-time.After(w.hangDur):
 			}
 		}
@@ -580,6 +635,100 @@ func runCtx(w *world) (res []opRes, errs string) {
 			}
 		case <-time.After(w.hangDur):
 			errs += fmt.Sprintf("sharer %d not parked at wind-down; ", i)
+		}
+	}
+	return
+}
+
+// ---- stress mode: genuinely concurrent sharers (real MPCalContext.Run loops, no driver) ----
+// variable 0 is a ticket counter (every committed section reads t and writes t+1); the other variables are
+// accounts: every section moves one unit between two of them, touching them in a random order (opposite
+// acquisition orders happen all the time).  Search aid: the oracle checks ticket = commits, sum preserved, no hang.
+func runStress(w *world) (commits, attempts []int, errs string) {
+	k := w.k
+	nv := len(k.Vars)
+	commits = make([]int, k.NSh)
+	attempts = make([]int, k.NSh)
+	done := make(chan error, k.NSh)
+	var ctxs []*distsys.MPCalContext
+	for i := 0; i < k.NSh; i++ {
+		idx := i
+		rng := rand.New(rand.NewSource(k.Seed + int64(i)*7919))
+		body := func(iface distsys.ArchetypeInterface) error {
+			if commits[idx] >= k.Iters {
+				return distsys.ErrDone
+			}
+			attempts[idx]++
+			h := func(v int) distsys.ArchetypeResourceHandle {
+				hh, err := iface.RequireArchetypeResourceRef(fmt.Sprintf("ASharer.x%d", v))
+				if err != nil {
+					panic(err)
+				}
+				return hh
+			}
+			type step struct {
+				v     int
+				delta int32
+			}
+			steps := []step{{0, 1}}
+			if nv >= 3 {
+				a := 1 + rng.Intn(nv-1)
+				b := 1 + rng.Intn(nv-1)
+				for b == a {
+					b = 1 + rng.Intn(nv-1)
+				}
+				steps = append(steps, step{a, -1}, step{b, 1})
+			}
+			rng.Shuffle(len(steps), func(x, y int) { steps[x], steps[y] = steps[y], steps[x] })
+			for _, st := range steps {
+				val, err := iface.Read(h(st.v), nil)
+				if err != nil {
+					return err
+				}
+				if rng.Intn(4) == 0 {
+					runtime.Gosched()
+				}
+				if err = iface.Write(h(st.v), nil, tla.MakeNumber(val.AsNumber()+st.delta)); err != nil {
+					return err
+				}
+			}
+			commits[idx]++
+			return nil
+		}
+		arch := distsys.MPCalArchetype{
+			Name: "ASharer", Label: "ASharer.body",
+			JumpTable: distsys.MakeMPCalJumpTable(distsys.MPCalCriticalSection{Name: "ASharer.body", Body: body}),
+			ProcTable: distsys.MakeMPCalProcTable(), PreAmble: func(distsys.ArchetypeInterface) {},
+		}
+		var cfg []distsys.MPCalContextConfigFn
+		for v := 0; v < nv; v++ {
+			arch.RequiredRefParams = append(arch.RequiredRefParams, fmt.Sprintf("ASharer.x%d", v))
+			cfg = append(cfg, distsys.EnsureArchetypeRefParam(fmt.Sprintf("x%d", v), w.res[idx][v]))
+		}
+		ctx := distsys.NewMPCalContext(tla.MakeNumber(int32(i)), arch, cfg...)
+		ctxs = append(ctxs, ctx)
+	}
+	for _, c := range ctxs {
+		c := c
+		go func() {
+			defer func() {
+				if r := recover(); r != nil {
+					done <- fmt.Errorf("panic: %v", r)
+				}
+			}()
+			done <- c.Run()
+		}()
+	}
+	deadline := time.After(20*time.Second + time.Duration(k.Iters*k.NSh)*time.Duration(k.TimeoutMs*4*float64(time.Millisecond)))
+	for range ctxs {
+		select {
+		case err := <-done:
+			if err != nil {
+				errs += err.Error() + "; "
+			}
+		case <-deadline:
+			w.hung = true
+			return commits, attempts, errs + "hang"
 		}
 	}
 	return
@@ -603,12 +752,29 @@ func runCase(k kase) (out result) {
 		out.Res = runAPI(w)
 	case "ctx":
 		out.Res, out.Err = runCtx(w)
+	case "stress":
+		out.Commits, out.Attempts, out.Err = runStress(w)
 	default:
 		out.Err = "bad mode"
 	}
+	if w.hung {
+		hungCases++
+		for range k.Vars {
+			out.Final = append(out.Final, "hang")
+		}
+		return
+	}
 	out.Final = w.final()
+	for _, f := range out.Final {
+		if s, ok := f.(string); ok && s == "hang" {
+			hungCases++
+			break
+		}
+	}
 	return
 }
+
+var hungCases int
 
 func main() {
 	in := bufio.NewReaderSize(os.Stdin, 1<<20)
@@ -621,6 +787,11 @@ func main() {
 		if err := dec.Decode(&k); err != nil {
 			fmt.Fprintln(os.Stderr, "bad case:", err)
 			os.Exit(2)
+		}
+		if hungCases >= 6 {
+			// the implementation keeps blocking forever: do not spend the whole budget waiting
+			enc.Encode(result{ID: k.ID, Err: "not run: 6 earlier cases blocked forever"})
+			continue
 		}
 		enc.Encode(runCase(k))
 	}
